@@ -41,6 +41,7 @@ type Contract struct {
 	Steps     map[int][]Clause // per-iteration two-state clauses (prev(e) = value at the loop head)
 	Asserts   []Clause
 	Uses      []Clause // lemma instantiations at entry
+	Before    map[string][]Clause // proof steps checked (then assumed) before calls to the named callee; callee parameter names are in scope
 	DeadRets  map[int]bool // returns (by source order) that are unreachable under the contract
 	File      string
 	Line      int
@@ -76,12 +77,12 @@ func newContractTable() *ContractTable {
 	return &ContractTable{C: map[string]*Contract{}, Funcs: map[string]*SpecFunc{}, Imports: map[string]string{}, GhostFields: map[string]string{}, Consts: map[string]string{}, GhostDefaults: map[string]string{}, InitFacts: map[string][]Clause{}}
 }
 
-var tagRe = regexp.MustCompile(`^\[([A-Za-z0-9_.:\-]+)\]\s*`)
+var tagRe = regexp.MustCompile(`^\[([A-Za-z0-9_.:+\-]+)\]\s*`)
 var pkgClauseRe = regexp.MustCompile(`^package\s+(\w+)`)
 
 var clauseKeywords = map[string]bool{"requires": true, "ensures": true, "modifies": true, "pure": true, "assumed": true,
 	"functype": true, "loop": true, "results": true, "params": true, "maypanic": true, "wrapping": true, "assert": true, "use": true, "allocates": true,
-	"dead": true, "func": true, "iface": true, "lemma": true, "import": true, "initfact": true, "axiom": true, "ghostfield": true, "uninterp": true, "const": true}
+	"before": true, "dead": true, "func": true, "iface": true, "lemma": true, "import": true, "initfact": true, "axiom": true, "ghostfield": true, "uninterp": true, "const": true}
 
 // loadContractFile parses one file. defaultPkg is used for keys without package qualifier
 // (the Go package name of the file for in-repo contract files).
@@ -289,6 +290,20 @@ func (ct *ContractTable) loadContractFile(path string) error {
 					}
 					cur.Modifies = append(cur.Modifies, c)
 				}
+			case "before":
+				// before <calleeKey> assert [tag] expr
+				if len(fields) < 4 || fields[2] != "assert" {
+					return fmt.Errorf("%s:%d: bad before clause", path, rl.line)
+				}
+				r2 := strings.TrimSpace(rest[strings.Index(rest, " assert ")+len(" assert "):])
+				c, err := mkClause(r2, rl.line)
+				if err != nil {
+					return err
+				}
+				if cur.Before == nil {
+					cur.Before = map[string][]Clause{}
+				}
+				cur.Before[fields[1]] = append(cur.Before[fields[1]], c)
 			case "dead":
 				// dead return N
 				if len(fields) != 3 || fields[1] != "return" {
